@@ -1,9 +1,9 @@
 /* C12 harness: the real pack.c driven by the line protocol of lean/Librfn/Driver/Pack.lean.
  * Every buffer (the packed buffer, the source of rf_pack_bytes, the destination of rf_unpack_bytes) is an
  * exactly-sized heap block, so that ASan reports a one-byte over-read or over-write.
- * ops: buf <n> <hex|-> | init | pb <hex|-> | pn <n> | s16le v | u16be v | u16le v | s32le v | u32le v
+ * ops: buf <n> <hex|-> | bufp <n> <seed> | init | pb <hex|-> | pn <n> | s16le v | u16be v | u16le v | s32le v | u32le v
  *      | ub <n> | us <n> | uc | us8 | uu8 | uu16 | uu32 | reset ; "--" echoes "--"
- * answer: <result> c=<consumed> r=<remaining> buf=<hex image> */
+ * answer: <result> c=<consumed> r=<remaining> buf=<hex image, or #crc32 for more than 64 bytes> */
 #include <stdio.h>
 #include <stdlib.h>
 #include <string.h>
@@ -35,10 +35,21 @@ static void put_hex(const uint8_t *p, size_t n)
 	for (size_t i = 0; i < n; i++) printf("%02x", p[i]);
 }
 
+/* CRC-32 (IEEE, as zlib): printed instead of the image for buffers of more than 64 bytes */
+static uint32_t crc32_of(const uint8_t *p, size_t n)
+{
+	uint32_t c = 0xffffffffu;
+	for (size_t i = 0; i < n; i++) {
+		c ^= p[i];
+		for (int k = 0; k < 8; k++) c = (c & 1) ? (c >> 1) ^ 0xEDB88320u : c >> 1;
+	}
+	return c ^ 0xffffffffu;
+}
+
 static void tail(void)
 {
 	printf(" c=%d r=%d buf=", rf_pack_consumed(&pk), rf_pack_remaining(&pk));
-	put_hex(buf, bufn);
+	if (bufn <= 64) put_hex(buf, bufn); else printf("#%08x", crc32_of(buf, bufn));
 	putchar('\n');
 }
 
@@ -61,6 +72,14 @@ int main(void)
 			if (len < 0) { puts("bad-op"); continue; }
 			if ((unsigned long)len != sz) { free(p); puts("bad-op"); continue; }
 			free(buf); buf = p; bufn = (unsigned int)sz; have = 1;
+			rf_pack_init(&pk, buf, bufn);
+			fputs("-", stdout); tail(); continue;
+		}
+		if (!strcmp(op, "bufp")) {	/* bufp <n> <seed>: exactly-sized block filled with a position dependent pattern */
+			unsigned long sz, sd;
+			if (sscanf(line, "%*s %lu %lu", &sz, &sd) != 2) { puts("bad-op"); continue; }
+			free(buf); buf = malloc(sz); bufn = (unsigned int)sz; have = 1;
+			for (unsigned long i = 0; i < sz; i++) buf[i] = (uint8_t)((i * 131 + (i / 256) * 17 + (i / 65536) * 29 + sd) % 256);
 			rf_pack_init(&pk, buf, bufn);
 			fputs("-", stdout); tail(); continue;
 		}
